@@ -2,6 +2,10 @@
 check (yet) or outside the reach of static analysis are in NOT_APPLICABLE with the reason."""
 
 CLAIMS = {
+    "C13": {
+        "text": "Decides the decision logic of the captive-portal handler as a truth function extracted from the MIR (independent of idiom): the response header is added exactly when the challenge header is present, 1..=63 bytes long and every byte passes the character predicate (all lengths 0..100 enumerated against the extracted decision tree); the character predicate accepts exactly [0-9A-Za-z._-] (evaluated on every cell of the finite code-point partition induced by its constants and the std class boundaries); the echoed value is `response ` + that same header value; every non-error path answers 204. Assumes std's is_ascii_* / http's len()/is_empty()/as_bytes()/to_str() do what they document; unrecognised tests fail closed.",
+        "technique": "decision-tree (truth-function) extraction from loop-free MIR + exact evaluation over a finite partition of the input domain (predicate abstraction), operand provenance",
+    },
     "C03": {
         "text": "Decides structurally, on all paths of the handshake code: an authenticated identity is constructed only on the success edge of a signature verification of that same key; verify functions return Ok only through strict signature verification over the fresh challenge / TLS exporter; confirmation is written only on Access::Allow; registration requires it. Static verdict on code shape, not a proof of cryptographic strength.",
         "technique": "MIR success-edge dominance (requires_success) + constructor-site and who-calls inventories + derives-from slices",
@@ -163,7 +167,6 @@ CLAIMS = {
 _PENDING = "rules for this property are not implemented yet in this revision (see DESIGN.md §4 for the planned structural clauses)"
 
 NOT_APPLICABLE = {
-    "C13": "Pure predicate over header byte values (length 1-63, character classes): truth lies in constants compared against run-time bytes; no structural necessary condition that is not a frozen source fragment.",
     "C16": "Arithmetic partition of a byte buffer by run-time lengths and segment sizes; needs symbolic evaluation, not code shape.",
     "C23": "Pruning counts/ordering over run-time collections (sort by time, keep N); any shape rule would freeze a source fragment.",
     "C28": "Numeric choice (best latency in a time window, 2/3 hysteresis) over report histories; value-level, not structural.",
